@@ -53,6 +53,15 @@ fn main() {
         std::process::exit(2);
     }
     let prop = args[1].clone();
+    if prop == "streams" {
+        // debugging aid: `verif_harness streams FILE` lists the streams of an archive with their part counts
+        let mut a = ragc_common::Archive::new_reader();
+        a.open(std::path::Path::new(&args[2])).expect("open archive");
+        for sid in 0..a.get_num_streams() {
+            println!("{} parts={} raw={}", a.get_stream_name(sid).unwrap_or("?"), a.get_num_parts(sid), a.get_raw_size(sid));
+        }
+        return;
+    }
     let mut tier = Tier::Quick;
     let mut seed = 1u64;
     let mut model_path = "none".to_string();
